@@ -28,3 +28,6 @@ theories/ProjAlg.vos theories/ProjAlg.vok theories/ProjAlg.required_vos: theorie
 theories/AlgR.vo theories/AlgR.glob theories/AlgR.v.beautified theories/AlgR.required_vo: theories/AlgR.v theories/Base.vo
 theories/AlgR.vio: theories/AlgR.v theories/Base.vio
 theories/AlgR.vos theories/AlgR.vok theories/AlgR.required_vos: theories/AlgR.v theories/Base.vos
+theories/InterpAlg.vo theories/InterpAlg.glob theories/InterpAlg.v.beautified theories/InterpAlg.required_vo: theories/InterpAlg.v 
+theories/InterpAlg.vio: theories/InterpAlg.v 
+theories/InterpAlg.vos theories/InterpAlg.vok theories/InterpAlg.required_vos: theories/InterpAlg.v 
